@@ -1,0 +1,35 @@
+//go:build verif
+
+package gcsutil
+
+// Verification hooks (build tag "verif" only; see /verif/DESIGN.md section 4.2).
+
+// VerifHook, when set, is called at every instrumented point of the lock map with the key concerned
+// ("" inside countedLock, which does not know its key).
+var VerifHook func(point string, key string)
+
+func verifPoint(point string, key string) {
+	if h := VerifHook; h != nil {
+		h(point, key)
+	}
+}
+
+// VerifEntry is the observable state of one map entry.
+type VerifEntry struct {
+	Refcount int64
+	Full     bool // the key lock is held (its channel holds the element)
+}
+
+// VerifSnapshot returns the entries of the map. With lock=false the map mutex is not taken (for use at
+// instrumentation points that already hold it, or when every other goroutine is known to be parked).
+func (l *TransientLockMap) VerifSnapshot(lock bool) map[string]VerifEntry {
+	if lock {
+		l.mu.Lock()
+		defer l.mu.Unlock()
+	}
+	out := make(map[string]VerifEntry, len(l.locks))
+	for k, v := range l.locks {
+		out[k] = VerifEntry{Refcount: v.refcount, Full: len(v.ch) == 1}
+	}
+	return out
+}
